@@ -59,7 +59,7 @@ class P(Prop):
     ID = "C17"
     MODULE = "C17"
     THEOREMS = ["C17_number_by_number", "C17_length_mismatch", "C17_slice_pointwise", "C17_falsified_by_one", "C17_abs_reflexive",
-                "C17_abs_of_equal", "C17_rel_of_eq", "C17_rel_reflexive", "C17_abs_symmetric", "C17_nan_never", "C17_example"]
+                "C17_abs_of_equal", "C17_rel_of_eq", "C17_rel_reflexive", "C17_abs_symmetric", "C17_rel_symmetric", "C17_nan_never", "C17_example"]
     KERNELS = ["%s::%s" % (t, m) for t in TYPES for m in ("abs_diff_eq", "relative_eq")]
     RULE = ("all 112 abs_diff_eq / relative_eq impls (every polynomial, Log, IntOfLog, IntOfLogPoly4 and Segment of each) regenerated and "
             "proved number-by-number in Coq for all inputs; kernels, Piecewise (equal / different / prefix lengths) and PolyN run "
